@@ -952,8 +952,11 @@ def sigNorm : Nat → Bytes → Option Bytes
     | none => none
     | some s => sigSer s
 
-/-- the embedded-signature normaliser the packet parser uses -/
-def embFor (b : Bytes) : Bytes → Option Bytes := sigNorm b.length
+/-- the embedded-signature normaliser the packet parser uses: `embedded_sig` refuses to descend
+once `depth = MAX_EMBEDDED_SIGNATURE_DEPTH` (signature/de.rs), i.e. a top-level signature may
+carry at most that many levels of embedded signatures; `sigNorm n` accepts exactly `n` levels.
+(`fuel = input length` also bounds the nesting, each level being strictly inside the previous.) -/
+def embFor (b : Bytes) : Bytes → Option Bytes := sigNorm (min b.length Gen.maxEmbeddedSignatureDepth)
 
 def SigBytesWF (pk : Byte) : SigBytes → Prop
   | .mpis ms => sigMpiCount pk = some ms.length ∧ ∀ m ∈ ms, MpiWF m
